@@ -310,19 +310,55 @@ Section Main.
   Qed.
 End Main.
 
-(* the statement without the "no banned target" caveat is false: renaming a file to ".git"
-   is the only change, nothing is dirty, the parent's root tree (still listing the file) is reused *)
+(* Regression (the old code skipped a change whose new name is ".git" BEFORE marking its directories
+   dirty; repaired by 4f049bc): renaming a file to ".git" as the only change now makes the root dirty
+   and the incremental result is the from-scratch tree. *)
 Definition wit_base : ktree :=
   KDir ([114], [48]) [([97; 97], KFile ([102], [48]) [65] false)].
 Definition wit_t : ktree :=
   KDir ([114], [48]) [(DOTGIT, KFile ([102], [49]) [65] false)].
 
-Lemma incremental_refuted :
+Lemma incremental_banned_rename_ok :
   let cs := changes (flat wit_base) (flat wit_t) in
-  cs <> [] /\
+  dirty_dirs cs [] <> [] /\
   incremental HbG HtG (cache_of [wit_base]) [] cs [] (Some (to_git_root [] (erase wit_base))) wit_t
-  <> gid HbG HtG (to_git_root [] (erase wit_t)).
-Proof. split; vm_compute; discriminate. Qed.
+  = gid HbG HtG (to_git_root [] (erase wit_t)).
+Proof. split; vm_compute; [discriminate|reflexivity]. Qed.
+
+(* every reported change makes something dirty: "nothing dirty" now means "iter_changes reported nothing" *)
+Lemma dirty_nil_no_changes cs um :
+  dirty_dirs cs um = [] ->
+  forall c, In c cs -> c_old c = None /\ c_new c = None.
+Proof.
+  unfold dirty_dirs. intros H c Hc. apply app_eq_nil in H. destruct H as [H _].
+  assert (Hn : flat_map (fun p => prefixes (dirname p)) (opt_list (c_old c) ++ opt_list (c_new c)) = []).
+  { clear -H Hc. induction cs as [|x r IH]; [contradiction|]. simpl in H. apply app_eq_nil in H.
+    destruct H as [H1 H2]. destruct Hc as [->|Hc]; auto. }
+  destruct (c_old c) as [p|]; [simpl in Hn; destruct (dirname p); discriminate|].
+  destruct (c_new c) as [p|]; [simpl in Hn; destruct (dirname p); discriminate|]. auto.
+Qed.
+
+(* the main theorem with the completeness of iter_changes stated on the change list itself
+   (no reference to what the exporter considers dirty): possible since the repair 4f049bc *)
+Theorem incremental_eq_scratch_changes :
+  forall (sha : Type) (Hb : bytes -> sha) (Ht : list (N * name * sha) -> sha)
+         (texts : key -> bytes) (cache : key -> option sha) (others : list (list fent))
+         (cs : list change) (um ump : umap) (base t : ktree) (parent_root : option sha),
+    cache_consistent sha Hb cache texts ->
+    keys_ok texts (flat t) -> Forall (keys_ok texts) others ->
+    NoDup (map f_path (flat t)) ->
+    ((forall c, In c cs -> c_old c = None /\ c_new c = None) -> um = [] ->
+       erase t = erase base /\ ump = um /\
+       parent_root = Some (gid Hb Ht (to_git_root ump (erase base)))) ->
+    incremental Hb Ht cache others cs um parent_root t = gid Hb Ht (to_git_root um (erase t)).
+Proof.
+  intros sha Hb Ht texts cache others cs um ump base t proot Hc Hk Ho Hu Hcompl.
+  eapply incremental_eq_scratch; eauto.
+  intros Hd. apply Hcompl.
+  - eapply dirty_nil_no_changes; exact Hd.
+  - unfold dirty_dirs in Hd. apply app_eq_nil in Hd. destruct Hd as [_ Hd].
+    destruct um as [|[q m] r]; [reflexivity|]. simpl in Hd. destruct (dirname q); discriminate.
+Qed.
 
 (* ---- round trips ------------------------------------------------------------ *)
 Definition nle {A} (a b : name * A) : Prop := bytes_leb (fst a) (fst b) = true.
